@@ -587,6 +587,14 @@ class FnAnalysis:
                     return t.args[0] == "Eq"
                 if ("false", lt1) in facts:
                     return t.args[0] == "Ne"
+            # x == Enum::V for a field-less variant V, with the variant of x known on this path
+            for x_, k_ in ((t.args[1], t.args[2]), (t.args[2], t.args[1])):
+                if k_.op == "agg" and k_.args[0] == "adt" and not k_.args[4] and k_.args[3] is not None and x_.op != "agg":
+                    for f in facts:
+                        if f[0] == "var" and f[1] is x_:
+                            return (t.args[0] == "Eq") == (f[2] == k_.args[3])
+                        if f[0] == "notvar" and f[1] is x_ and f[2] == k_.args[3]:
+                            return t.args[0] == "Ne"
             dv = self._discr_cmp(t)
             if dv is not None:
                 base, names, k = dv
@@ -836,6 +844,20 @@ class FnAnalysis:
             outs[tb] = st
 
     def _switch_fact(self, facts, d, dty, v, taken, listed):
+        fs = self._switch_fact0(facts, d, dty, v, taken, listed)
+        if fs is None or fs is facts:
+            return fs
+        # what was learned may decide a condition inside a decision tree whose variant is already known on this path
+        # (`locate()?` known Ok, then `match` shows it is not the `if cached {Ok(Cached)}` arm: the inner bounds check held)
+        for f in list(fs):
+            if f[0] == "var" and isinstance(f[1], Term) and f[1].op == "ite":
+                nf = self._case_facts(frozenset(fs), f[1], f[2])
+                if nf is None:
+                    return None
+                fs = nf
+        return fs
+
+    def _switch_fact0(self, facts, d, dty, v, taken, listed):
         """facts after learning (d == v) if taken else (d != v); None when contradictory"""
         if d.op == "discr":
             x = d.args[0]
@@ -898,11 +920,38 @@ class FnAnalysis:
                 self._assume(extra, eqt(v), False)
             return facts | extra
 
-    def _case_facts(self, facts, base, vname):
+    def _case_facts(self, facts, base, vname, depth=0):
         """base is `if c {A} else {B}` (the summary of a helper) with A, B of different variants: knowing the variant decides c"""
         if base.op != "ite":
             return facts
+        if depth == 0:
+            base = self.resolve_trees(base, facts)      # conditions already decided on this path drop out first
+            if base.op != "ite":
+                return facts
         c, a, b = base.args
+
+        def variants_of(x):
+            """the set of variants a (possibly nested) decision tree over constructor applications can evaluate to; None if unknown"""
+            if x.op == "agg" and x.args[0] == "adt":
+                return {x.args[3]}
+            if x.op == "ite":
+                l, r = variants_of(x.args[1]), variants_of(x.args[2])
+                return None if l is None or r is None else l | r
+            return None
+        sa, sb = variants_of(a), variants_of(b)
+        if sa is not None and sb is not None and depth < 4 and (a.op == "ite" or b.op == "ite"):
+            # nested: `if c {Ok(A)} else {if d {Ok(B)} else {Err(..)}}` known to be Ok on a path where c is false  =>  d
+            if vname in sa and vname not in sb:
+                tv, nxt = True, a
+            elif vname in sb and vname not in sa:
+                tv, nxt = False, b
+            else:
+                return facts
+            cur = self.truth(facts, c)
+            if cur is not None and cur != tv:
+                return None
+            facts = self.assume_bool(facts, c, tv)
+            return self._case_facts(facts, nxt, vname, depth + 1) if nxt.op == "ite" else facts
         va = a.args[3] if a.op == "agg" and a.args[0] == "adt" else None
         vb = b.args[3] if b.op == "agg" and b.args[0] == "adt" else None
         if va is None or vb is None or va == vb:
